@@ -26,7 +26,7 @@ ALLOWED = {
                 r"^radicle::identity::doc::missing_version$",
                 r"^<radicle::identity::doc::Version as core::clone::Clone>::clone$"],
 }
-FLOORS = {"Doc": 3, "Delegates": 3, "Threshold": 3, "Version": 3}
+FLOORS = {"Doc": 2, "Delegates": 2, "Threshold": 2, "Version": 2}
 
 
 def const_is(e, values):
